@@ -111,20 +111,30 @@ def report_case(ctx, case, props, *, nontrivial, classes=None, extra_monitors=()
     return run
 
 
-def line_preempt_sweep(ctx, base, props, *, nontrivial, classes=None, extra_monitors=(), inv=0, kinds=("line",), limit=600, label="sweep", order="low"):
+def line_preempt_sweep(ctx, base, props, *, nontrivial, classes=None, extra_monitors=(), inv=0, kinds=("line",), limit=600, label="sweep", order="low", stall=0.0):
     """One run per executed line-level yield point of invocation `inv`: the task executing that point is preempted for as
     long as anything else can run. `base` must carry "line": [...modules...]. Returns (runs, complete)."""
     k = 0
     total = None
-    while (total is None or k < total) and k < limit:
-        sched = [{"mode": "seq"}] * inv + [{"mode": "linepreempt", "k": k, "kinds": list(kinds), "order": order}]
+    runs = 0
+    stride = 1
+    while (total is None or k < total) and runs < limit + 1:
+        sched = [{"mode": "seq"}] * inv + [{"mode": "linepreempt", "k": k, "kinds": list(kinds), "order": order, **({"stall": stall} if stall else {})}]
         case = {**copy.deepcopy(base), "sched": sched}
         run = report_case(ctx, case, props, nontrivial=nontrivial, classes=classes, extra_monitors=extra_monitors)
         rec = run.invocations[inv] if len(run.invocations) > inv else None
+        first = total is None
         total = (rec or {}).get("line_yields") or 0
-        k += 1
-    ctx.extra.setdefault("enumerations", {})[label] = {"schedules": k, "complete": total is not None and k >= total}
-    return k, (total is not None and k >= total)
+        runs += 1
+        if first and total > limit:
+            # more executed lines than the budget allows: sample them uniformly (every stride-th line, offset by the
+            # seed) instead of sweeping only the beginning of the invocation
+            stride = -(-total // limit)
+            k = ctx.seed % stride
+        else:
+            k += stride
+    ctx.extra.setdefault("enumerations", {})[label] = {"schedules": runs, "lines": total, "stride": stride, "complete": total is not None and stride == 1 and k >= total}
+    return runs, (total is not None and stride == 1 and k >= total)
 
 
 def enumerate_faults(ctx, base, props, *, nontrivial, classes=None, extra_monitors=(), fault_classes=("server5xx", "client4xx"), whens=("before", "after"),
